@@ -50,6 +50,10 @@ class Tok(object):
         return '%s:%r' % (self.kind, self.val)
 
 
+# reading mode for names outside SMT-LIB's symbol syntax (C07 escaped names)
+PYSMT_ESCAPES = [False]
+
+
 def tokenize(text):
     i, n = 0, len(text)
     out = []
@@ -83,6 +87,29 @@ def tokenize(text):
             out.append(Tok('str', ''.join(buf)))
             i = j + 1
         elif c == '|':
+            if PYSMT_ESCAPES[0]:
+                # pySMT's documented convention for names SMT-LIB has no
+                # spelling for: \\\\ is a backslash, \\| a bar
+                j = i + 1
+                buf = []
+                while True:
+                    if j >= n:
+                        raise SmtError('lexical',
+                                       'unterminated quoted symbol')
+                    if text[j] == '|':
+                        break
+                    if text[j] == '\\':
+                        if j + 1 >= n or text[j + 1] not in '\\|':
+                            raise SmtError('lexical', 'bad escape in '
+                                           'quoted symbol')
+                        buf.append(text[j + 1])
+                        j += 2
+                        continue
+                    buf.append(text[j])
+                    j += 1
+                out.append(Tok('sym', ''.join(buf), True))
+                i = j + 1
+                continue
             j = text.find('|', i + 1)
             if j < 0:
                 raise SmtError('lexical', 'unterminated quoted symbol')
